@@ -149,6 +149,9 @@ func (s *Sim) Step() {
 		q *= 5
 	}
 	time.Sleep(q)
+	// Other timers may expire at the very instant the sleep ends; let everything
+	// that runs at this instant finish before the driver acts again.
+	synctest.Wait()
 	s.C.Log.Add("%d tick %s t=%s", s.StepN, q, s.SimTime())
 }
 
@@ -318,6 +321,8 @@ func (s *Sim) Restart(i int) error {
 
 // Shutdown stops every node; must be called before the bubble ends.
 func (s *Sim) Shutdown() {
+	s.C.Log.Add("%d end of scenario, tearing down", s.StepN)
+	s.C.Log.Freeze()
 	s.Net.Heal()
 	for _, n := range s.Nodes[1:] {
 		if n != nil && n.Up {
